@@ -40,13 +40,19 @@ fn parse<'a>(tok: &mut std::slice::Iter<'a, &'a str>, w: &mut Walk) -> Option<No
             w.nodes.push(String::new());
             let p = match kind {
                 "s" => b.body(String::from_utf8(content).ok()?),
+                // a body encoded beforehand: its own encoding must end up in the header, whatever the builder was told
+                "P" => b.body(lettre::message::Body::new(String::from_utf8(content).ok()?)),
+                "Q" => b.body(lettre::message::Body::new(content)),
                 _ => b.body(content),
             };
             w.nodes[idx] = format!("H:{};B:{}", hex(p.headers().to_string().as_bytes()), hex(p.raw_body()));
             Some(Node::Single(p))
         }
         "M" => {
-            let kind = match *tok.next()? {
+            let kind_tok = *tok.next()?;
+            // an upper-case kind letter: a Content-ID header is set on the builder before the boundary
+            let with_id = kind_tok.chars().all(|c| c.is_ascii_uppercase());
+            let kind = match kind_tok.to_ascii_lowercase().as_str() {
                 "m" => MultiPartKind::Mixed,
                 "a" => MultiPartKind::Alternative,
                 "r" => MultiPartKind::Related,
@@ -57,6 +63,9 @@ fn parse<'a>(tok: &mut std::slice::Iter<'a, &'a str>, w: &mut Walk) -> Option<No
             let boundary = *tok.next()?;
             let n: usize = tok.next()?.parse().ok()?;
             let mut b = MultiPart::builder().kind(kind);
+            if with_id {
+                b = b.header(lettre::message::header::ContentId::from(String::from("<part@example.org>")));
+            }
             if boundary != "-" {
                 b = b.boundary(unhex_str(boundary)?);
             }
